@@ -118,11 +118,11 @@ CLAIMED["C09"] = dict(
     category="model_checking",
     text="Bounded, method level. decode(encode(v)) == v through the real URLEncodedSerializer::serialize_* and URLEncodedDeserializer::deserialize_* methods in the value place: both "
          "booleans, Option<bool>, a derived newtype, all 128 ASCII chars (every reserved character; enumerated in 4 chunks), 8 non-ASCII chars of every UTF-8 length, integers of every width at "
-         "their boundary values (enumerated concrete values: a symbolic integer through core's Display is out of reach), the empty string, the sequences (bool, bool) and (bool, bool, bool), "
+         "their boundary values (enumerated concrete values: a symbolic integer through core's Display is out of reach), the empty string, two concrete sequences of booleans (lengths 2 and 3), "
          "three concrete pairs of strings containing `,` `&` `=` `%`. One open known finding (a sequence whose first element is the empty string loses it).",
     design_ref="DESIGN.md §9.2, §9.3",
     note="NOT under a discharged contract: the struct/map glue of serde-derived impls (field order, unknown extra fields), floats, string maps, QueryParams::iter, symbolic strings of 1-2 bytes, "
-         "symbolic string pairs, unit enums and the `k=v&k=v` text-vs-RFC 3986 harnesses (written, harness/C09, but 8-27 GB / no answer in 15 min each: unregistered). percent-encoding crate and core::str::from_utf8 "
+         "symbolic string pairs, symbolic (bool, bool) sequences, unit enums and the `k=v&k=v` text-vs-RFC 3986 harnesses (written, harness/C09, but 8-27 GB / no answer in 15 min each: unregistered). percent-encoding crate and core::str::from_utf8 "
          "replaced by assumed contracts. Two genuine defects found by these obligations were repaired (fix: 7bec830 chars written raw, 41c3ccf sequences never decoded); KF-C09-empty-first-seq-element is open.",
     technique="Kani harness contracts: round trip through the real serializer and deserializer methods per field type (symbolic where CBMC can afford it, otherwise exhaustively enumerated small domains / boundary values)",
 )
@@ -155,14 +155,14 @@ CLAIMED["C14"] = dict(
 CLAIMED["C17"] = dict(
     category="model_checking",
     text="Bounded, framing only. The per-message framing block of Response::send (Content::Stream branch) is extracted VERBATIM from the real source on every run (lib/vf.py //@extract: the lines between "
-         "`while let Some(chunk) = stream.next().await {` and `conn.write_all(&chunk).await`) and run on 10 enumerated concrete message sequences (empty message, single line, embedded LF, two messages, empty "
-         "then non-empty, field-like content `data: x`, embedded CR, CRLF, lone CR, `x CR event: y`): the frames followed by `0 CRLF CRLF` are a valid chunked body (reference reader from RFC 9112 7.1) whose content, "
+         "`while let Some(chunk) = stream.next().await {` and `conn.write_all(&chunk).await`) and run on 9 enumerated concrete message sequences (empty message, single line, embedded LF, two messages, empty "
+         "then non-empty, field-like content `data: x`, embedded CR, CRLF, `x CR event: y`): the frames followed by `0 CRLF CRLF` are a valid chunked body (reference reader from RFC 9112 7.1) whose content, "
          "read by an event-stream interpreter written from the WHATWG algorithm, is exactly the produced messages in order with CRLF/CR normalised to LF: none lost, merged, split or duplicated, no event/id/retry "
          "field, no comment or unknown-field line, nothing left undispatched.",
     design_ref="DESIGN.md §9.1, §9.4",
     note="Dropped by the extraction and NOT under contract: the await points of the loop (stream.next(), write_all, flush) and with them every question of pacing / producer schedule, QueueStream, the response "
          "head (Transfer-Encoding: chunked is set by set_stream_raw) and the final zero chunk (appended by the harness as `send` does after the loop). The same contract over SYMBOLIC messages of 1-3 bytes is "
-         "written (harness/C17) but needs more than 20 min per shape under CBMC and is not registered, nor are the two sequences with a trailing LF. A genuine defect found by these obligations was repaired (fix: 22dde27, CR inside a message).",
+         "written (harness/C17) but needs more than 20 min per shape under CBMC and is not registered, nor are the three sequences whose message ENDS in a line break (`LF`, `ab LF`, `CR`: no answer in 15 min). A genuine defect found by these obligations was repaired (fix: 22dde27, CR inside a message).",
     technique="Kani harness contract on a block extracted verbatim from an async fn (mechanical extraction on every run), enumerated concrete inputs, reference chunked reader + event-stream interpreter as the postcondition",
 )
 
